@@ -7,6 +7,7 @@ time-scaling EXPRESSION of every branch of the hazard functions is regenerated f
 -/
 import StarsimModel.Lemmas.Hazard
 import StarsimModel.Lemmas.TimeParReal
+import Mathlib.Data.Rat.Floor
 
 namespace StarsimModel.C16
 open StarsimModel.TimePar StarsimModel.Hazard
@@ -14,27 +15,32 @@ open StarsimModel.TimePar StarsimModel.Hazard
 /-! ### Obligations on the regenerated expressions -/
 
 /-- plain-number rates of births, deaths and fertility are scaled by the module's step length in YEARS
-    (whichever of the equivalent source spellings is used: the `time_ratio(...)` call or `dt_year`) -/
-theorem C16_number_factors_are_year_ratio (unit : UnitT) (dt : Option Rat) :
-    factorOf Gen.birthsNumberFactor unit dt = timeRatio unit dt (some "year") (some 1) ∧
-    factorOf Gen.deathsNumberFactor unit dt = timeRatio unit dt (some "year") (some 1) ∧
-    factorOf Gen.fertilityNumberFactor unit dt = timeRatio unit dt (some "year") (some 1) := by
+    — the MODULE's own step, not the sim's (whichever of the equivalent source spellings is used: the
+    `time_ratio(self.t.unit, self.t.dt, ...)` call or `self.t.dt_year`; `sim.t.dt_year` is NOT equivalent) -/
+theorem C16_number_factors_are_year_ratio (unit : UnitT) (dt : Option Rat) (su : UnitT) (sd : Option Rat) :
+    factorOf Gen.birthsNumberFactor unit dt su sd = timeRatio unit dt (some "year") (some 1) ∧
+    factorOf Gen.deathsNumberFactor unit dt su sd = timeRatio unit dt (some "year") (some 1) ∧
+    factorOf Gen.fertilityNumberFactor unit dt su sd = timeRatio unit dt (some "year") (some 1) := by
   refine ⟨?_, ?_, ?_⟩ <;> (unfold factorOf; rw [if_neg (by decide), if_neg (by decide), if_pos (by decide)])
 
 /-- a TimePar birth rate is not scaled again (the TimePar already converts to the module's step) -/
-theorem C16_births_timepar_factor_is_one (unit : UnitT) (dt : Option Rat) : factorOf Gen.birthsTimeParFactor unit dt = .ok 1 := by
+theorem C16_births_timepar_factor_is_one (unit : UnitT) (dt : Option Rat) (su : UnitT) (sd : Option Rat) :
+    factorOf Gen.birthsTimeParFactor unit dt su sd = .ok 1 := by
   unfold factorOf; rw [if_pos (by decide)]
 
 /-- ageing adds the SIM step length in years -/
 theorem C16_ageing_increment_is_dt_year (unit : UnitT) (dt : Option Rat) :
     ageIncrement unit dt = timeRatio unit dt (some "year") (some 1) := by
-  unfold ageIncrement factorOf; rw [if_neg (by decide), if_neg (by decide), if_pos (by decide)]
+  unfold ageIncrement factorOf; rw [if_neg (by decide), if_neg (by decide), if_neg (by decide), if_pos (by decide)]
 
 /-- the TimePar death-rate branch is one of the two known variants: as is (`self.t.dt`, the defect) or repaired (`1.0`) -/
 theorem C16_deaths_timepar_factor_variant : Gen.deathsTimeParFactor = "self.t.dt" ∨ Gen.deathsTimeParFactor = "1.0" := by decide
 
 /-- the routine-delivery exponent is one of the two known variants: as is (`sim.pars.dt`, raw steps) or repaired (years) -/
 theorem C16_delivery_dt_variant : Gen.deliveryDt = "sim.pars.dt" ∨ Gen.deliveryDt = "sim.t.dt" ∨ Gen.deliveryDt = "sim.t.dt_year" := by decide
+
+/-- dynamic edges are aged by the network's own step -/
+theorem C16_edge_decrement_is_dt : Gen.edgeDecrement = "self.t.dt" := by decide
 
 /-! ### Plain-number rates: probability = rate · units · rel · (step length in years) -/
 
@@ -46,24 +52,24 @@ theorem year_ratio_known {u : String} {lu ly d : Rat} (hlu : unitLen u = some lu
   field_simp
 
 /-- **Births, number form**: per-step probability = rate·units·rel·dt_year (clipped), for every module unit and dt -/
-theorem C16_births_linear {u : String} {lu ly d : Rat} (hlu : unitLen u = some lu) (hly : unitLen "year" = some ly) (r ru rel : Rat) :
-    birthsNumber (some u) (some d) r ru rel = .ok (clip01 (r * ru * rel * (d * lu / ly))) := by
+theorem C16_births_linear {u : String} {lu ly d : Rat} (hlu : unitLen u = some lu) (hly : unitLen "year" = some ly) (su : UnitT) (sd : Option Rat) (r ru rel : Rat) :
+    birthsNumber (some u) (some d) su sd r ru rel = .ok (clip01 (r * ru * rel * (d * lu / ly))) := by
   unfold birthsNumber numberProb
-  rw [(C16_number_factors_are_year_ratio _ _).1, year_ratio_known hlu hly]
+  rw [(C16_number_factors_are_year_ratio _ _ _ _).1, year_ratio_known hlu hly]
 
 /-- **Deaths, number form** -/
-theorem C16_deaths_number_linear {u : String} {lu ly d : Rat} (hlu : unitLen u = some lu) (hly : unitLen "year" = some ly) (r ru rel : Rat) :
-    deathsNumber (some u) (some d) r ru rel = .ok (clip01 (r * ru * rel * (d * lu / ly))) := by
+theorem C16_deaths_number_linear {u : String} {lu ly d : Rat} (hlu : unitLen u = some lu) (hly : unitLen "year" = some ly) (su : UnitT) (sd : Option Rat) (r ru rel : Rat) :
+    deathsNumber (some u) (some d) su sd r ru rel = .ok (clip01 (r * ru * rel * (d * lu / ly))) := by
   unfold deathsNumber numberProb
-  rw [(C16_number_factors_are_year_ratio _ _).2.1, year_ratio_known hlu hly]
+  rw [(C16_number_factors_are_year_ratio _ _ _ _).2.1, year_ratio_known hlu hly]
 
 /-- **Fertility, number form**: eligible women get rate·(units·rel)·dt_year, the others 0 -/
 theorem C16_fertility_linear {u : String} {lu ly d : Rat} (hlu : unitLen u = some lu) (hly : unitLen "year" = some ly)
-    (r ru rel age mn mx : Rat) (fec : Bool) :
-    fertilityNumber (some u) (some d) r ru rel age mn mx fec =
+    (su : UnitT) (sd : Option Rat) (r ru rel age mn mx : Rat) (fec : Bool) :
+    fertilityNumber (some u) (some d) su sd r ru rel age mn mx fec =
       .ok (if fec = true ∧ mn ≤ age ∧ age ≤ mx then clip01 (r * (ru * rel) * (d * lu / ly)) else 0) := by
   unfold fertilityNumber
-  rw [(C16_number_factors_are_year_ratio _ _).2.2, year_ratio_known hlu hly]
+  rw [(C16_number_factors_are_year_ratio _ _ _ _).2.2, year_ratio_known hlu hly]
   simp only [Except.ok.injEq]
   by_cases hf : fec = true <;> by_cases h1 : age < mn <;> by_cases h2 : mx < age <;>
     simp [hf, h1, h2, not_le.mpr, not_lt.mp]
@@ -77,39 +83,39 @@ theorem C16_events_per_year_linear {r d : Rat} (hd : d ≠ 0) (h0 : 0 ≤ r * d)
 
 /-- **Births, TimePar form**: per-step probability = v·units·rel·(parent step)/(own period), clipped -/
 theorem C16_births_timepar {t : TP Rat} {u pu : String} {lu lpu s p r : Rat} (h : RateReady t u pu lu lpu s p) (hv : t.v = .scalar r)
-    (unit : UnitT) (dt : Option Rat) (ru rel : Rat) :
-    birthsTimePar unit dt t ru rel = .ok (.scalar (clip01 (r * ru * rel * ((p * lpu) / (s * lu))))) := by
+    (unit : UnitT) (dt : Option Rat) (su : UnitT) (sd : Option Rat) (ru rel : Rat) :
+    birthsTimePar unit dt su sd t ru rel = .ok (.scalar (clip01 (r * ru * rel * ((p * lpu) / (s * lu))))) := by
   unfold birthsTimePar
-  have hfx := C16_births_timepar_factor_is_one unit dt
-  rw [timeparProb_rate_scalar h hv _ unit dt hfx]
+  have hfx := C16_births_timepar_factor_is_one unit dt su sd
+  rw [timeparProb_rate_scalar h hv _ unit dt su sd hfx]
   have := ne_of_gt (unitLen_pos h.lu); have := ne_of_gt (unitLen_pos h.lpu); have := h.p0; have := h.s0
   congr 3
   field_simp
 
 /-- **Deaths, repaired variant** (`factor = 1.0`): the same law as births — linear in the module's dt -/
 theorem C16_deaths_spec {t : TP Rat} {u pu : String} {lu lpu s p r : Rat} (h : RateReady t u pu lu lpu s p) (hv : t.v = .scalar r)
-    (unit : UnitT) (dt : Option Rat) (ru rel : Rat) :
-    timeparProb "1.0" unit dt t ru rel = .ok (.scalar (clip01 (r * ru * rel * ((p * lpu) / (s * lu))))) := by
-  have hfx : factorOf "1.0" unit dt = .ok 1 := by unfold factorOf; simp
-  rw [timeparProb_rate_scalar h hv _ unit dt hfx]
+    (unit : UnitT) (dt : Option Rat) (su : UnitT) (sd : Option Rat) (ru rel : Rat) :
+    timeparProb "1.0" unit dt su sd t ru rel = .ok (.scalar (clip01 (r * ru * rel * ((p * lpu) / (s * lu))))) := by
+  have hfx : factorOf "1.0" unit dt su sd = .ok 1 := by unfold factorOf; simp
+  rw [timeparProb_rate_scalar h hv _ unit dt su sd hfx]
   have := ne_of_gt (unitLen_pos h.lu); have := ne_of_gt (unitLen_pos h.lpu); have := h.p0; have := h.s0
   congr 3
   field_simp
 
 /-- **Deaths, as is** (`factor = self.t.dt`): the module's dt enters TWICE -/
 theorem C16_deaths_asis {t : TP Rat} {u pu : String} {lu lpu s p r d : Rat} (h : RateReady t u pu lu lpu s p) (hv : t.v = .scalar r)
-    (unit : UnitT) (ru rel : Rat) :
-    timeparProb "self.t.dt" unit (some d) t ru rel = .ok (.scalar (clip01 (r * ru * rel * d * ((p * lpu) / (s * lu))))) := by
-  have hfx : factorOf "self.t.dt" unit (some d) = .ok d := by unfold factorOf; simp
-  rw [timeparProb_rate_scalar h hv _ unit (some d) hfx]
+    (unit : UnitT) (su : UnitT) (sd : Option Rat) (ru rel : Rat) :
+    timeparProb "self.t.dt" unit (some d) su sd t ru rel = .ok (.scalar (clip01 (r * ru * rel * d * ((p * lpu) / (s * lu))))) := by
+  have hfx : factorOf "self.t.dt" unit (some d) su sd = .ok d := by unfold factorOf; simp
+  rw [timeparProb_rate_scalar h hv _ unit (some d) su sd hfx]
   have := ne_of_gt (unitLen_pos h.lu); have := ne_of_gt (unitLen_pos h.lpu); have := h.p0; have := h.s0
   congr 3
   field_simp
 
 /-- **Partial**: as is equals the repaired law exactly when the module's dt is 1 -/
 theorem C16_deaths_partial {t : TP Rat} {u pu : String} {lu lpu s p r : Rat} (h : RateReady t u pu lu lpu s p) (hv : t.v = .scalar r)
-    (unit : UnitT) (ru rel : Rat) :
-    timeparProb "self.t.dt" unit (some 1) t ru rel = timeparProb "1.0" unit (some 1) t ru rel := by
+    (unit : UnitT) (su : UnitT) (sd : Option Rat) (ru rel : Rat) :
+    timeparProb "self.t.dt" unit (some 1) su sd t ru rel = timeparProb "1.0" unit (some 1) su sd t ru rel := by
   rw [C16_deaths_asis h hv, C16_deaths_spec h hv, mul_one]
 
 /-- the default death rate `ss.peryear(20)` per 1000 in a module stepping in years with dt = 1/5 -/
@@ -119,8 +125,8 @@ def deathsWitness : TP Rat :=
 /-- **Counterexample (kernel-evaluated on the model).** With dt = 1/5 the as-is probability is 1/1250 per step,
     i.e. 1/250 per year instead of 1/50: one fifth of the annual hazard (deaths ∝ dt²); the repaired variant gives 1/250 per step. -/
 theorem C16_deaths_asis_counterexample :
-    timeparProb "self.t.dt" (some "year") (some (1/5)) deathsWitness (1/1000) 1 = .ok (.scalar (1/1250)) ∧
-    timeparProb "1.0" (some "year") (some (1/5)) deathsWitness (1/1000) 1 = .ok (.scalar (1/250)) ∧
+    timeparProb "self.t.dt" (some "year") (some (1/5)) (some "year") (some (1/5)) deathsWitness (1/1000) 1 = .ok (.scalar (1/1250)) ∧
+    timeparProb "1.0" (some "year") (some (1/5)) (some "year") (some (1/5)) deathsWitness (1/1000) 1 = .ok (.scalar (1/250)) ∧
     (1/1250 : Rat) * 5 = (1/5) * ((20 : Rat) / 1000) := by
   refine ⟨by decide +kernel, by decide +kernel, by decide +kernel⟩
 
@@ -212,6 +218,144 @@ theorem C16_events_per_year_compound {P dt : ℝ} (hP : P < 1) (hdt : dt ≠ 0) 
     1 - (1 - realOps.tpFormula P (1 / dt)) ^ (1 / dt) = P :=
   tp_compound hP (one_div_ne_zero hdt)
 
+/-! ### Round 2: nearest year, fertility table, sampled durations, waning, dynamic edges -/
+
+/-- **Nearest year**: the selected year is one of the tabulated years and no tabulated year is closer to the requested one
+    (whatever the spacing of the table and wherever the step falls between two entries) -/
+theorem C16_nearest_year_minimal (years : List Rat) (y : Rat) (r : Rat) (h : nearestVal years y = some r) :
+    r ∈ years ∧ ∀ x ∈ years, absDiff r y ≤ absDiff x y := by
+  cases years with
+  | nil => simp [nearestVal] at h
+  | cons x xs =>
+    simp only [nearestVal, Option.some.injEq] at h
+    subst h
+    obtain ⟨h1, h2, h3⟩ := nearestValAux_spec y xs x
+    constructor
+    · rcases h1 with e | m
+      · rw [e]; exact List.mem_cons_self ..
+      · exact List.mem_cons_of_mem _ m
+    · intro z hz
+      rcases List.mem_cons.mp hz with rfl | hz
+      · exact h2
+      · exact h3 z hz
+
+/-- a sim time that IS a tabulated year selects that year -/
+theorem C16_nearest_year_exact (years : List Rat) (y : Rat) (hy : y ∈ years) (r : Rat) (h : nearestVal years y = some r) : r = y := by
+  have h0 := (C16_nearest_year_minimal years y r h).2 y hy
+  have hz : absDiff y y = 0 := by simp [absDiff]
+  rw [hz] at h0
+  unfold absDiff at h0
+  by_cases hn : r - y < 0
+  · simp only [hn, if_true] at h0; linarith
+  · simp only [hn, if_false] at h0; linarith [not_lt.mp hn]
+
+/-- **Fertility table, infecund re-scaling**: the expected number of conceptions in an age bin is preserved
+    (`rate·count` spread over the fecund women only) -/
+theorem C16_fertility_rescale (rate : Rat) (count infecund : Nat) (h : (0 : Rat) < (count : Rat) - (infecund : Rat)) :
+    rescaleRate rate count infecund * ((count : Rat) - (infecund : Rat)) = rate * (count : Rat) := by
+  unfold rescaleRate
+  simp only [h, if_true]
+  have := ne_of_gt h
+  field_simp
+
+/-- the yearly interpolation of the table reproduces the tabulated values at the tabulated years -/
+theorem C16_fertility_interpolation_endpoints (y0 r0 y1 r1 : Rat) (h : y0 ≠ y1) : lerp y0 r0 y1 r1 y0 = r0 ∧ lerp y0 r0 y1 r1 y1 = r1 := by
+  have : y1 - y0 ≠ 0 := sub_ne_zero.mpr (Ne.symm h)
+  constructor
+  · simp [lerp]
+  · unfold lerp; field_simp; ring
+
+/-- **Sampled durations** (`ss.lognorm_ex(mean=ss.dur(6))`, `ss.days(ss.lognorm_ex(..))`, … of the disease modules): every
+    variate, converted by the module's timeline, times the module's step length is the sampled duration (both in days) -/
+theorem C16_sampled_duration_steps (t : TP Rat) (hk : t.kind = .dur) {u pu : String} {lu lpu s p : Rat}
+    (hu : t.unit = some u) (hpu : t.parentUnit = some pu) (hs : t.selfDt = some s) (hp : t.parentDt = some p)
+    (hlu : unitLen u = some lu) (hlpu : unitLen pu = some lpu) (hp0 : p ≠ 0) (draws : List Rat) :
+    (scaleDraws ratOps t draws).1.values = some (.array (draws.map (· * ((s / p) * (lu / lpu))))) ∧
+    ∀ x ∈ draws, (x * ((s / p) * (lu / lpu))) * (p * lpu) = x * (s * lu) := by
+  unfold scaleDraws
+  rw [updateCached_dur (t := { t with v := .array draws }) hk hu hpu hs hp hlu hlpu hp0 true]
+  refine ⟨rfl, fun x _ => ?_⟩
+  have := ne_of_gt (unitLen_pos hlpu)
+  field_simp
+
+/-- **Waning / per-unit-time rates of a module** (`SIS.waning = ss.rate(0.05)`, `Cholera.decay_rate`, …): the per-step value
+    is the rate times the module's step length expressed in the rate's own period -/
+theorem C16_rate_per_step (t : TP Rat) (hk : t.kind = .rate) {u pu : String} {lu lpu s p : Rat}
+    (hu : t.unit = some u) (hpu : t.parentUnit = some pu) (hs : t.selfDt = some s) (hp : t.parentDt = some p)
+    (hlu : unitLen u = some lu) (hlpu : unitLen pu = some lpu) (hp0 : p ≠ 0) (hs0 : s ≠ 0) :
+    (updateCached ratOps t true false).1.values = some (t.v.map (· / ((s / p) * (lu / lpu)))) ∧
+    ∀ x : Rat, x / ((s / p) * (lu / lpu)) = x * ((p * lpu) / (s * lu)) := by
+  rw [updateCached_rate t hk hu hpu hs hp hlu hlpu hp0 hs0 false]
+  refine ⟨rfl, fun x => ?_⟩
+  have := ne_of_gt (unitLen_pos hlpu); have := ne_of_gt (unitLen_pos hlu)
+  field_simp
+
+/-- **Dynamic edges**: an edge of duration `d` (network units) in a network stepping `dt` is kept for exactly `n = ⌈d/dt⌉`
+    calls of `end_pairs`, and `n·dt` is `d` rounded up to the step grid: `d ≤ n·dt < d + dt`; once dropped it stays dropped -/
+theorem C16_edge_duration_steps {d dt : Rat} (hd : 0 < d) (hdt : 0 < dt) :
+    let n := (Int.ceil (d / dt)).toNat
+    (∀ k, k < n → edgeActive d dt k = true) ∧ (∀ k, n ≤ k → edgeActive d dt k = false) ∧
+    d ≤ (n : Rat) * dt ∧ (n : Rat) * dt < d + dt := by
+  intro n
+  have hq : 0 < d / dt := div_pos hd hdt
+  have hc : 0 < Int.ceil (d / dt) := Int.ceil_pos.mpr hq
+  have hn : ((n : Int) : Rat) = ((Int.ceil (d / dt) : Int) : Rat) := by
+    have : (n : Int) = Int.ceil (d / dt) := Int.toNat_of_nonneg (le_of_lt hc)
+    rw [this]
+  have hnr : (n : Rat) = ((Int.ceil (d / dt) : Int) : Rat) := by exact_mod_cast hn
+  have h1 : d / dt ≤ (n : Rat) := by rw [hnr]; exact Int.le_ceil _
+  have h2 : (n : Rat) < d / dt + 1 := by rw [hnr]; exact Int.ceil_lt_add_one _
+  have e1 : d ≤ (n : Rat) * dt := by rwa [div_le_iff₀ hdt] at h1
+  have e2 : (n : Rat) * dt < d + dt := by
+    have := mul_lt_mul_of_pos_right h2 hdt
+    rw [add_mul, div_mul_cancel₀ _ (ne_of_gt hdt), one_mul] at this
+    exact this
+  refine ⟨?_, ?_, e1, e2⟩
+  · intro k hk
+    have hk' : (k : Rat) + 1 ≤ (n : Rat) := by exact_mod_cast hk
+    have : (k : Rat) * dt < d := by nlinarith
+    simp [edgeActive, edgeDurAfter, this]
+  · intro k hk
+    have hk' : (n : Rat) ≤ (k : Rat) := by exact_mod_cast hk
+    have : d ≤ (k : Rat) * dt := le_trans e1 (mul_le_mul_of_nonneg_right hk' hdt.le)
+    simp [edgeActive, edgeDurAfter, this]
+
+/-- the per-act exponent of the sexual network is `acts·dt` (the form `C16_net_beta_compound` is about) -/
+theorem C16_net_beta_exponent (acts dt : Rat) (n : Nat) : (n : Rat) * netBetaExponent acts dt = acts * ((n : Rat) * dt) := by
+  unfold netBetaExponent; ring
+
+/-! ### Module parameters are linked to the module's own timeline (as is: to the first module's) -/
+
+/-- **Intended** (`reach = false`): the parameters of module `j` are converted for module `j`'s own step -/
+theorem C16_module_timeline_spec (mods : List Timeline) (j : Nat) : linkedTimeline false mods j = mods[j]? := rfl
+
+/-- **Partial** (as is): correct for the module that initialises first, and for every module when all modules share one timeline -/
+theorem C16_module_timeline_partial (mods : List Timeline) (j : Nat) (h : j = 0 ∨ ∀ a ∈ mods, ∀ b ∈ mods, a = b) :
+    linkedTimeline true mods j = mods[j]? := by
+  unfold linkedTimeline
+  simp only [if_true]
+  cases hj : mods[j]? with
+  | none => rfl
+  | some tj =>
+    rcases h with rfl | hall
+    · simp only
+      cases mods with
+      | nil => simp at hj
+      | cons a t => simpa using hj
+    · simp only
+      cases mods with
+      | nil => simp at hj
+      | cons a t =>
+        have hm : tj ∈ a :: t := List.mem_of_getElem? hj
+        simp [hall a (List.mem_cons_self ..) tj hm]
+
+/-- **Counterexample** (as is): `SIS(unit='day', dt=2)` initialised after a module on (year, 1): its parameters are
+    converted for a one-year step -/
+theorem C16_module_timeline_counterexample :
+    linkedTimeline true [(some "year", some 1), (some "day", some 2)] 1 = some (some "year", some 1) ∧
+    linkedTimeline false [(some "year", some 1), (some "day", some 2)] 1 = some (some "day", some 2) := by
+  constructor <;> rfl
+
 /-! ### Non-vacuity -/
 
 /-- `deathsWitness` is a `RateReady` object (the default `ss.peryear(20)` in a yearly module with dt = 1/5) -/
@@ -220,6 +364,11 @@ example : ∃ ly, RateReady deathsWitness "year" "year" ly ly 1 (1/5) := by
   | none => exact absurd hy (by decide +kernel)
   | some ly =>
     exact ⟨ly, ⟨rfl, rfl, rfl, rfl, rfl, rfl, by decide +kernel, by decide +kernel, hy, hy, by norm_num, by norm_num⟩⟩
+
+/-- nearest year on a 5-yearly table at a sub-annual time; an edge of 2.5 units with dt = 1 lives 3 steps -/
+example : nearestVal [1995, 2000, 2005, 2010] (8009/4) = some 2000 ∧ nearestVal [1995, 2000, 2005, 2010] (4005/2) = some 2000 ∧
+    nearest [1995, 2000, 2005, 2010] 2003 = 2 ∧ edgeActive (5/2) 1 2 = true ∧ edgeActive (5/2) 1 3 = false := by
+  refine ⟨by decide +kernel, by decide +kernel, by decide +kernel, by decide +kernel, by decide +kernel⟩
 
 /-- increasing bins exist and the lookup is non-trivial: ages 7 and −2 in bins 0,1,5,10 -/
 example : ageBin [0, 1, 5, 10] 7 = 3 ∧ ageBin [0, 1, 5, 10] (-2) = 0 ∧ [(0:Rat), 1, 5, 10].Pairwise (· < ·) := by
